@@ -787,7 +787,7 @@ def resolve_imported(repo, rel, name, func=None, depth=3):
 
 
 def inline_module_helpers(repo, rel, func, depth=2, methods=False, keep=(),
-                          imports=False):
+                          imports=False, functions=True):
     """copy of `func` in which calls of helpers are replaced by the helper's
     body and its result: module-level functions of the same file and – with
     `methods` – private methods (``self._x`` / ``cls._x`` / ``Class._x``) of
@@ -808,7 +808,7 @@ def inline_module_helpers(repo, rel, func, depth=2, methods=False, keep=(),
         f = call.func
         h, skip_self = None, False
         call._h_rel = cur_rel[0]
-        if isinstance(f, ast.Name):
+        if isinstance(f, ast.Name) and functions:
             h = repo.lookup(cur_rel[0], f.id, missing_ok=True)
             if not isinstance(h, ast.FunctionDef) or not isinstance(
                     h.parent, ast.Module):
